@@ -564,6 +564,12 @@ func sameAV(a, b AV) bool {
 	case AOther:
 		_, ok := b.(AOther)
 		return ok
+	case ARef:
+		y, ok := b.(ARef)
+		return ok && x.id == y.id
+	case ANil:
+		_, ok := b.(ANil)
+		return ok
 	case ATuple:
 		y, ok := b.(ATuple)
 		if !ok || len(x.elems) != len(y.elems) {
